@@ -365,6 +365,12 @@ func (i *interpreter) patternIntrinsic(fn *ssa.Function) intrinsic {
 	if noopPkgs[pp] {
 		return noopCall
 	}
+	if pp == "reflect" || pp == "github.com/fatih/structs" || pp == "internal/reflectlite" {
+		return func(fr *frame, args []value) value {
+			abandon("reflection is not encoded (%s)", fr.fn.String())
+			return nil
+		}
+	}
 	if opaquePkgs[pp] {
 		return opaqueCall
 	}
